@@ -14,7 +14,29 @@ import ast
 from .. import astq, symidx
 from ..program import rel, AnalysisError
 from ..poly import P, P_div, atom_of
-from .C12 import parse_blockstack, product_operands, Und
+from . import C12
+
+
+class Und(Exception):
+    pass
+
+
+def is_T(e):
+    return isinstance(e, ast.Attribute) and e.attr == "T"
+
+
+def product_operands(prog, pf, e):
+    """A @ B.T / np.dot(A, B.T) -> (A, B) ; raises Und otherwise"""
+    x = astq.expand(pf, e) if isinstance(e, ast.Name) else e
+    if isinstance(x, ast.BinOp) and isinstance(x.op, ast.MatMult):
+        l, r = x.left, x.right
+    elif isinstance(x, ast.Call) and astq.callee_name(prog, pf, x) in ("numpy.dot", "numpy.matmul") and len(x.args) == 2:
+        l, r = x.args
+    else:
+        raise Und(f"`{astq.src(e)}` is not a matrix product")
+    if not is_T(r):
+        raise Und(f"second factor `{astq.src(r, 50)}` is not transposed")
+    return l, r.value
 
 HANK = "functions.ssi.build_hank"
 FAST = "functions.ssi.SSI_fast"
@@ -177,15 +199,33 @@ def producer(prog, run):
     try:
         H = astq.expr_at(pf, store, ast.Name(id="Hank", ctx=ast.Load()))
         # full estimate: first returned element
-        Hfull = astq.expr_at(pf, rets[-1], rets[-1].value.elts[0])
-        A, B = product_operands(prog, pf, Hfull)
-        se2 = symidx.SymEval(prog, pf, stop={"Nb"})
-        fut = parse_blockstack(prog, pf, se2, A, "i")
-        past = parse_blockstack(prog, pf, se2, B, "c")
-        w_full = fut["factor"] * past["factor"]
-        L_full = fut["hi"] - fut["lo"]
-        # block estimate: the minuend of the deviation, stripped of vectorisation
-        blk = dev.left if dev is not None else None
+        se2 = symidx.SymEval(prog, pf, stop={"Nb", "N"})
+        # the full estimate, as assembled from windows of the two records (sa/hankdom.py, shared with C12)
+        from .. import hankdom
+        pos_ = astq.params_of(fi.node)[0]
+        hs, _it = C12.analyse(prog, fi, "cov_mm", pos_[0], pos_[1], pos_[2], pos_[3])
+        Hf = hs[0][0] if len(hs) == 1 else None
+        if not (isinstance(Hf, hankdom.Gram) and isinstance(Hf.a, hankdom.Stk) and isinstance(Hf.b, hankdom.Stk)):
+            raise Und(f"full estimate `{repr(Hf)[:80]}` is not a product of two window stacks")
+        # express the window length / weights in the function's own symbols (N = Ndat - 2 br - 1 in hankdom's terms)
+        w_full = Hf.a.win.w * Hf.b.win.w
+        L_full_h = Hf.a.win.hi - Hf.a.win.lo
+        from ..poly import atom
+        N_h = P.s("Ndat") - 2 * P.s(pos_[2]) - 1
+        if L_full_h != N_h - 1 and L_full_h != N_h:
+            raise Und(f"window length {L_full_h!r} is not N or N-1")
+        L_full = P.s("N") - (N_h - L_full_h)
+        if w_full * N_h != P.c(1) and not (__import__("sa.poly", fromlist=["atom_of"]).atom_of(w_full, -1) == N_h):
+            raise Und(f"weight product {w_full!r} is not 1/N")
+        w_full = P({(("N", -1),): 1})
+        # block estimate: the minuend of the deviation, stripped of vectorisation (N and Nb kept symbolic)
+        xk = astq.expr_at(pf, store, store.value, keep=("N", "Nb"))
+        devk = None
+        for b_ in ast.walk(xk):
+            if isinstance(b_, ast.BinOp) and isinstance(b_.op, ast.Sub):
+                devk = b_
+                break
+        blk = devk.left if devk is not None else None
         while isinstance(blk, ast.Call) and isinstance(blk.func, ast.Attribute) and blk.func.attr in ("reshape", "flatten", "ravel"):
             blk = blk.func.value
         coef = P.c(1)
